@@ -28,6 +28,8 @@ static int str_getc (void *data) {
 struct Workload {
   // definition
   bool is_c = false;
+  bool is_greg = false;  // interpreted functions sharing a variable tied to a hard register (a per-context `global`)
+  int64_t greg_val = 0;
   int c_src = 0;
   Case cs;        // generated program (when !is_c)
   int engine = 0;  // 0 interp, 1..4 gen -O0..-O3, 5 lazy gen
@@ -82,6 +84,11 @@ static bool do_step (Workload &w) {
         return false;
       }
       c2mir_finish (w.ctx);
+    } else if (w.is_greg) {
+      MIR_scan_string (w.ctx,
+                       "gm:\tmodule\n\texport\tsetg, getg\n"
+                       "setg:\tfunc\ti64, i64:v\n\tglobal\ti64:g:r14\n\tmov\tg, v\n\tret\tv\n\tendfunc\n"
+                       "getg:\tfunc\ti64\n\tglobal\ti64:g:r14\n\tlocal\ti64:t\n\tadd\tt, g, 1\n\tret\tt\n\tendfunc\n\tendmodule\n");
     } else
       MIR_scan_string (w.ctx, w.cs.text.c_str ());
     break;
@@ -98,7 +105,11 @@ static bool do_step (Workload &w) {
     MIR_link (w.ctx, w.engine == 0 ? MIR_set_interp_interface : w.engine == 5 ? MIR_set_lazy_gen_interface : MIR_set_gen_interface, NULL);
     break;
   case 4: {
-    if (w.is_c) {
+    if (w.is_greg) {  // the value written here is read back one step later (other workloads run in between)
+      MIR_val_t r, a;
+      a.i = w.greg_val;
+      MIR_interp_arr (w.ctx, find_item (w.ctx, "setg"), &r, 1, &a);
+    } else if (w.is_c) {
       MIR_item_t f = find_item (w.ctx, "cf");
       w.c_result = f ? ((int (*) (int, int)) f->addr) (7, 3) : -1;
     } else {
@@ -117,6 +128,12 @@ static bool do_step (Workload &w) {
     break;
   }
   case 5: {
+    if (w.is_greg) {
+      MIR_val_t r;
+      r.i = 0;
+      MIR_interp_arr (w.ctx, find_item (w.ctx, "getg"), &r, 0, NULL);
+      w.c_result = r.i;
+    }
     char *b = NULL;
     size_t len = 0;
     FILE *f = open_memstream (&b, &len);
@@ -149,7 +166,9 @@ static void reset (Workload &w) {
 // label numbers in MIR_output depend on nothing but the context, so texts must be identical byte for byte
 static std::string diff_workload (const Workload &solo, const Workload &w, int idx) {
   if (solo.error != w.error) return strfmt ("workload %d: solo run %s, concurrent run %s", idx, solo.error.empty () ? "succeeded" : solo.error.c_str (), w.error.empty () ? "succeeded" : w.error.c_str ());
-  if (solo.is_c) {
+  if (solo.is_greg) {
+    if (solo.c_result != w.c_result) return strfmt ("workload %d (interpreted functions with a hard-register variable): read back %ld alone, %ld together", idx, (long) solo.c_result, (long) w.c_result);
+  } else if (solo.is_c) {
     if (solo.c_result != w.c_result) return strfmt ("workload %d (c2mir): result %ld alone, %ld together", idx, (long) solo.c_result, (long) w.c_result);
   } else {
     if (solo.obs.size () != w.obs.size ()) return strfmt ("workload %d: number of runs differs", idx);
@@ -191,7 +210,11 @@ static void case_fn (CS &cs, Outcome &o) {
     Workload &w = ws[i];
     w.is_c = cs.chance (70);
     w.buf = bufs[i].data ();
-    if (w.is_c) {
+    if (!w.is_c && cs.chance (60)) {
+      w.is_greg = true;
+      w.engine = 0;
+      w.greg_val = 1000 + 17 * i + (int64_t) cs.range (0, 9);
+    } else if (w.is_c) {
       w.c_src = (int) cs.range (0, 2);
       w.engine = (int) cs.range (0, 5);
       n_c++;
@@ -214,7 +237,7 @@ static void case_fn (CS &cs, Outcome &o) {
       w.engine = (int) cs.range (0, 2);
     }
     if (w.engine >= 1) n_gen++;
-    desc += strfmt ("w%d{%s,%s} ", i, w.is_c ? strfmt ("c2mir src%d", w.c_src).c_str () : "generated program", w.engine == 0 ? "interp" : w.engine == 5 ? "lazy" : strfmt ("gen-O%d", w.engine - 1).c_str ());
+    desc += strfmt ("w%d{%s,%s} ", i, w.is_greg ? "hard-register variable" : w.is_c ? strfmt ("c2mir src%d", w.c_src).c_str () : "generated program", w.engine == 0 ? "interp" : w.engine == 5 ? "lazy" : strfmt ("gen-O%d", w.engine - 1).c_str ());
   }
   // solo runs (sequential, one context at a time)
   std::vector<Workload> solo = ws;
